@@ -136,6 +136,8 @@ class Ref:
             self.chain(op[1]).visible = op[2]
         elif kind == "fold":
             self.chain(op[1]).folded = op[2]
+        elif kind == "title":
+            self.chain(op[1]).title = op[2]
         return None
 
     # -- C10 / C14
@@ -210,7 +212,7 @@ def has_empty_middle(op):
     keys = []
     if op[0] in ("select", "delete"):
         keys = [op[1]]
-    elif op[0] in ("chain", "vis", "fold"):
+    elif op[0] in ("chain", "vis", "fold", "title"):
         keys = list(op[1])
     for k in keys:
         parts = spec_split(k)
